@@ -13,6 +13,10 @@ import (
 	"golang.org/x/tools/go/ssa"
 )
 
+var specTimeoutOpOptions = map[string][]string{
+	"WithTimeoutOps": {"channel.OperationOptions.Timeout<-param0", "netconf.OperationOptions.Timeout<-param0"},
+}
+
 func init() {
 	register(&Property{
 		ID:  "C05",
@@ -51,6 +55,8 @@ func init() {
 				Edits: []Edit{{File: "driver/netconf/rpc.go", Old: "ctx, cancel := context.WithCancel(context.Background())", New: "ctx, cancel := context.WithTimeout(context.Background(), d.Channel.TimeoutOps)"}}},
 			{ID: "C05-driver-closes-again", Desc: "generic Open closes the channel again when Channel.Open failed", Rule: "C05/no-double-close",
 				Edits: []Edit{{File: "driver/generic/driver.go", Old: "\terr := d.Channel.Open()\n\tif err != nil {\n\t\treturn err\n\t}", New: "\terr := d.Channel.Open()\n\tif err != nil {\n\t\t_ = d.Channel.Close()\n\n\t\treturn err\n\t}"}}},
+			{ID: "C05-zero-override-dropped", Desc: "per-operation timeout option ignores zero and negative values", Rule: "C05/options",
+				Edits: []Edit{{File: "driver/opoptions/channel.go", Old: "func WithTimeoutOps(t time.Duration) util.Option {\n\treturn func(o interface{}) error {\n", New: "func WithTimeoutOps(t time.Duration) util.Option {\n\treturn func(o interface{}) error {\n\t\tif t <= 0 {\n\t\t\treturn nil\n\t\t}\n\n"}}},
 			{ID: "C05-auth-timer-removed", Desc: "telnet authentication waits for the worker without a timer", Rule: "C05/deadline-source",
 				Edits: []Edit{{File: "channel/auth.go", Old: "\tt := time.NewTimer(c.TimeoutOps)\n\n\tselect {\n\tcase r := <-cr:\n\t\treturn r.b, r.err\n\tcase <-t.C:\n\t\tc.l.Critical(\"channel timeout during in channel telnet authentication\")\n\n\t\treturn nil, fmt.Errorf(\n\t\t\t\"%w: channel timeout during in channel telnet authentication\",\n\t\t\tutil.ErrTimeoutError,\n\t\t)\n\t}", New: "\tr := <-cr\n\n\treturn r.b, r.err"}}},
 		},
@@ -170,6 +176,16 @@ func selfBounded(fn *ssa.Function) bool {
 }
 
 func runC05(c *Ctx, r *Report) {
+	r.Rule("C05/options", "the per-operation timeout option stores exactly the duration it is given (zero and negative values included: 0 means maximum, -1 the connection-wide value) into the channel / NETCONF operation options", 2)
+	{
+		only := map[string]bool{"WithTimeoutOps": true}
+		sub := NewReport("C05")
+		checkOptionTable(c, sub, "C05x", "driver/opoptions", specTimeoutOpOptions, only)
+		for _, o := range sub.Obs {
+			construct := strings.TrimPrefix(o.Key, o.Rule+" @ ")
+			r.add("C05/options", construct+" ("+strings.TrimPrefix(o.Rule, "C05x/")+")", o.Status, o.Pos, o.Msg, nil)
+		}
+	}
 	r.Rule("C05/no-double-close", "a driver Open does not close the channel again on the failing edge of Channel.Open (which closed it already; Close is not idempotent)", 2)
 	checkNoDoubleChannelClose(c, r, "C05/no-double-close")
 	r.Rule("C05/search-window", "prompt / response searches look at a suffix of the buffer that starts on a line boundary (else a line tail that looks like a prompt ends the operation early: success with partial output)", 4)
